@@ -35,15 +35,15 @@ func infra(format string, args ...interface{}) {
 // ---------------------------------------------------------------- spec table
 
 type spec struct {
-	ID       string
-	Profiles []string // worker profiles (cluster engine) or disk programs
-	Engine   string   // "cluster" | "disk" | "race"
-	Accept   []string // violation properties that count for this check
-	Level    string
-	Rule     string
-	Assume   []string
-	Probes   []string // probes that must fire for the batch to be meaningful (reported as not reached otherwise)
-	QuickS   float64
+	ID        string
+	Profiles  []string // worker profiles (cluster engine) or disk programs
+	Engine    string   // "cluster" | "disk" | "race"
+	Accept    []string // violation properties that count for this check
+	Level     string
+	Rule      string
+	Assume    []string
+	Probes    []string // probes that must fire for the batch to be meaningful (reported as not reached otherwise)
+	QuickS    float64
 	ThoroughS float64
 }
 
@@ -56,54 +56,54 @@ var commonAssume = []string{
 
 var specs = map[string]*spec{
 	"C01": {ID: "C01", Profiles: []string{"core"}, Engine: "cluster", Accept: []string{"C01"}, Level: "exploration",
-		Rule: "one run = one seeded cluster simulation (config, fault plan and schedule from the seed). Non-trivial: the run applied >= 1 replicated operation and >= 1 fault fired. Distinct: distinct event-log hashes among those.",
+		Rule:   "one run = one seeded cluster simulation (config, fault plan and schedule from the seed). Non-trivial: the run applied >= 1 replicated operation and >= 1 fault fired. Distinct: distinct event-log hashes among those.",
 		Probes: []string{"leader-elected", "log-truncated", "reopen-saw-inflight-append"}},
 	"C02": {ID: "C02", Profiles: []string{"election"}, Engine: "cluster", Accept: []string{"C02"}, Level: "exploration",
-		Rule: "one run = one seeded cluster simulation of the election profile (close timers, stalls, vote-write crashes, non-voters added right after the first election). Non-trivial: >= 2 leaders elected and >= 1 fault fired. Distinct: distinct event-log hashes among those.",
+		Rule:   "one run = one seeded cluster simulation of the election profile (close timers, stalls, vote-write crashes, non-voters added right after the first election). Non-trivial: >= 2 leaders elected and >= 1 fault fired. Distinct: distinct event-log hashes among those.",
 		Probes: []string{"leader-elected", "vote-granted", "nonvoter-added", "elected-with-bare-majority-even"}},
 	"C03": {ID: "C03", Profiles: []string{"core"}, Engine: "cluster", Accept: []string{"C03"}, Level: "exploration",
 		Rule: "one run = one seeded cluster simulation with concurrent clients on any node; the recorded history is checked exactly against the applied sequence. Non-trivial: >= 5 acknowledged operations and >= 1 fault fired. Distinct: distinct event-log hashes among those."},
 	"C04": {ID: "C04", Profiles: []string{"durability"}, Engine: "cluster", Accept: []string{"C04"}, Level: "exploration",
-		Rule: "one run = one seeded cluster simulation with crashes at storage-operation boundaries, torn writes, optional loss of un-synced data; at acknowledgements the durable log images are decoded with the repository's reader. Non-trivial: >= 1 acknowledged operation and >= 1 crash. Distinct: distinct event-log hashes among those.",
+		Rule:   "one run = one seeded cluster simulation with crashes at storage-operation boundaries, torn writes, optional loss of un-synced data; at acknowledgements the durable log images are decoded with the repository's reader. Non-trivial: >= 1 acknowledged operation and >= 1 crash. Distinct: distinct event-log hashes among those.",
 		Probes: []string{"acked-with-bare-majority-even", "heal-restarted-bare-majority", "reopen-saw-inflight-append"}},
 	"C05": {ID: "C05", Profiles: []string{"reads"}, Engine: "cluster", Accept: []string{"C05"}, Level: "exploration",
-		Rule: "one run = one seeded cluster simulation with linearizable reads at every node, heavy-tailed reply delays, clock skew, leader isolation (alone or with the non-voters). Non-trivial: >= 1 successful linearizable read and >= 2 leaders elected. Distinct: distinct event-log hashes among those.",
+		Rule:   "one run = one seeded cluster simulation with linearizable reads at every node, heavy-tailed reply delays, clock skew, leader isolation (alone or with the non-voters). Non-trivial: >= 1 successful linearizable read and >= 2 leaders elected. Distinct: distinct event-log hashes among those.",
 		Probes: []string{"nonvoter-added", "fault-aimed-at-leader"}},
 	"C06": {ID: "C06", Profiles: []string{"core", "election", "snapshot"}, Engine: "cluster", Accept: []string{"C06"}, Level: "exploration",
-		Rule: "one run = one seeded cluster simulation; every handled AppendEntries request (incl. duplicated and stale re-delivered ones) is checked against the log-wrapper calls it made, and logs are compared pairwise after every append. Non-trivial: >= 1 follower truncation or stale re-delivery happened. Distinct: distinct event-log hashes among those.",
+		Rule:   "one run = one seeded cluster simulation; every handled AppendEntries request (incl. duplicated and stale re-delivered ones) is checked against the log-wrapper calls it made, and logs are compared pairwise after every append. Non-trivial: >= 1 follower truncation or stale re-delivery happened. Distinct: distinct event-log hashes among those.",
 		Probes: []string{"ae-truncated-follower", "ae-accepted-with-entries"}},
 	"C07": {ID: "C07", Profiles: []string{"core", "election"}, Engine: "cluster", Accept: []string{"C07"}, Level: "exploration",
 		Rule: "one run = one seeded cluster simulation; at the first sample showing a node as leader of a term its log must hold every committed entry. Non-trivial: >= 2 leaders elected with >= 1 committed entry. Distinct: distinct event-log hashes among those."},
 	"C08": {ID: "C08", Profiles: []string{"election", "durability", "election", "snapshot"}, Engine: "cluster", Accept: []string{"C08"}, Level: "exploration",
-		Rule: "one run = one seeded cluster simulation; per node across incarnations: terms in replies/status/reloads never decrease, one candidate per term (grants and persisted votes), votes only for up-to-date logs, prevotes inert. Non-trivial: >= 1 real vote granted and >= 1 crash. Distinct: distinct event-log hashes among those.",
+		Rule:   "one run = one seeded cluster simulation; per node across incarnations: terms in replies/status/reloads never decrease, one candidate per term (grants and persisted votes), votes only for up-to-date logs, prevotes inert. Non-trivial: >= 1 real vote granted and >= 1 crash. Distinct: distinct event-log hashes among those.",
 		Probes: []string{"vote-granted", "prevote-granted"}},
 	"C09": {ID: "C09", Profiles: []string{"membership"}, Engine: "cluster", Accept: []string{"C09"}, Level: "exploration",
-		Rule: "one run = one seeded cluster simulation starting from 1-4 voters with a membership client issuing add-non-voter / add-voter / promote / remove (incl. the leader) back-to-back, to any node, without waiting, under partitions and crashes. Non-trivial: >= 2 configuration entries committed and >= 1 fault fired. Distinct: distinct event-log hashes among those.",
+		Rule:   "one run = one seeded cluster simulation starting from 1-4 voters with a membership client issuing add-non-voter / add-voter / promote / remove (incl. the leader) back-to-back, to any node, without waiting, under partitions and crashes. Non-trivial: >= 2 configuration entries committed and >= 1 fault fired. Distinct: distinct event-log hashes among those.",
 		Probes: []string{"config-entry-committed", "commit-quorum-checked", "membership-change-applied-by-its-leader", "leader-elected"}},
 	"C12": {ID: "C12", Profiles: []string{"disk-C12"}, Engine: "disk", Accept: []string{"C12"}, Level: "fault_enumeration",
 		Rule: "one program = a seeded sequence (1-12 calls, longer in thorough) of append / append-batch / truncate / compact / discard / close+reopen on the repository's file-backed log over the simulated disk. For every program the crash points are enumerated completely: before every storage operation, after the last, and inside every write (quick: header bytes + sampled offsets; thorough: every byte of every write up to 2 KiB, for larger writes every byte of the first and last 64 plus a stride of 1/128 of the write). evaluations = crash points executed (each one a fresh execution of the program, a crash, a reopen with the repository's code and a comparison with the model through the public API; a third of them continue with more operations and a second crash). distinct_nontrivial = distinct disk images at the crash instant, per program."},
 	"C13": {ID: "C13", Profiles: []string{"disk-C13"}, Engine: "disk", Accept: []string{"C13"}, Level: "fault_enumeration",
 		Rule: "one program = a seeded sequence of SetState / NewSnapshotFile + writes (0 B to beyond one transfer chunk) + Close|Discard / SnapshotFile / reopen (up to 40 snapshots) on the repository's term/vote and snapshot storages over the simulated disk. Crash points as for C12. After every crash: storages and NewRaft must be constructible at the first attempt, State() = last returned or in-flight value, SnapshotFile() = most recent successfully closed snapshot, complete. evaluations = crash points executed; distinct_nontrivial = distinct disk images at the crash instant, per program."},
 	"C16": {ID: "C16", Profiles: []string{"sticky"}, Engine: "cluster", Accept: []string{"C16"}, Level: "exploration",
-		Rule: "one run = one seeded simulation: wait for a stable leader, fix a prompt majority around it, then isolate (symmetric / one-directional, any duration), rejoin, crash/restart, stall and speed up the clocks of the remaining nodes for 60-240 election timeouts. Non-trivial: >= 1 vote request from the tormented minority was handled by a majority node during the window. Distinct: distinct event-log hashes among those.",
+		Rule:   "one run = one seeded simulation: wait for a stable leader, fix a prompt majority around it, then isolate (symmetric / one-directional, any duration), rejoin, crash/restart, stall and speed up the clocks of the remaining nodes for 60-240 election timeouts. Non-trivial: >= 1 vote request from the tormented minority was handled by a majority node during the window. Distinct: distinct event-log hashes among those.",
 		Probes: []string{"window-established", "window-rejoins", "window-minority-restarts", "window-vote-requests-reached-majority", "window-real-vote-requests-reached-majority"}},
 	"C17": {ID: "C17", Profiles: []string{"lease"}, Engine: "cluster", Accept: []string{"C17"}, Level: "exploration",
-		Rule: "one run = one seeded cluster simulation with lease reads at every node; lease L, message delay bound D and election timeout E drawn with L + D < E, clocks at rate 1 without steps, no stalls; partitions and leader changes. Non-trivial: >= 1 successful lease read and >= 2 leaders elected. Distinct: distinct event-log hashes among those.",
+		Rule:   "one run = one seeded cluster simulation with lease reads at every node; lease L, message delay bound D and election timeout E drawn with L + D < E, clocks at rate 1 without steps, no stalls; partitions and leader changes. Non-trivial: >= 1 successful lease read and >= 2 leaders elected. Distinct: distinct event-log hashes among those.",
 		Probes: []string{"nonvoter-added", "fault-aimed-at-leader", "lease-read-checked-against-voter-reply"}},
 	"C18": {ID: "C18", Profiles: []string{"api", "membership"}, Engine: "cluster", Accept: []string{"C18"}, Level: "exploration",
-		Rule: "one run = one seeded cluster simulation with an API fuzzer task per node (status/configuration rendering, submissions of every and of invalid operation types, empty payloads, zero/huge timeouts, membership requests with existing/unknown/own ids, Bootstrap again, Start/Restart on a running node, Stop+Restart, Stop+Start, Stop twice) in whatever state the node is in; the membership profile contributes the membership-future obligation. Non-trivial: >= 10 API calls were made. Distinct: distinct event-log hashes among those.",
+		Rule:   "one run = one seeded cluster simulation with an API fuzzer task per node (status/configuration rendering, submissions of every and of invalid operation types, empty payloads, zero/huge timeouts, membership requests with existing/unknown/own ids, Bootstrap again, Start/Restart on a running node, Stop+Restart, Stop+Start, Stop twice) in whatever state the node is in; the membership profile contributes the membership-future obligation. Non-trivial: >= 10 API calls were made. Distinct: distinct event-log hashes among those.",
 		Probes: []string{"api-calls", "api-in-state-0", "api-in-state-1", "api-in-state-2", "api-in-state-3", "api-in-state-4", "graceful-restart", "membership-change-applied-by-its-leader"}},
 	"C20": {ID: "C20", Engine: "race", Accept: []string{"C20"}, Level: "exploration"},
 	"C10": {ID: "C10", Profiles: []string{"snapshot", "snapshot", "crashsweep"}, Engine: "cluster", Accept: []string{"C10"}, Level: "exploration",
-		Rule: "one run = one seeded cluster simulation with snapshots on, slow state machine, lagging followers. Non-trivial: >= 1 snapshot became visible. Distinct: distinct event-log hashes among those.",
+		Rule:   "one run = one seeded cluster simulation with snapshots on, slow state machine, lagging followers. Non-trivial: >= 1 snapshot became visible. Distinct: distinct event-log hashes among those.",
 		Probes: []string{"snapshot-visible", "snapshot-installed", "snapshot-during-apply", "snapshot-larger-than-chunk", "restore-during-apply"}},
 	"C11": {ID: "C11", Profiles: []string{"snapshot", "snapshot", "crashsweep"}, Engine: "cluster", Accept: []string{"C11"}, Level: "exploration",
-		Rule: "one run = one seeded cluster simulation with snapshots on plus duplicated / stale re-delivered InstallSnapshot requests. Non-trivial: >= 1 snapshot installed on a follower. Distinct: distinct event-log hashes among those.",
+		Rule:   "one run = one seeded cluster simulation with snapshots on plus duplicated / stale re-delivered InstallSnapshot requests. Non-trivial: >= 1 snapshot installed on a follower. Distinct: distinct event-log hashes among those.",
 		Probes: []string{"snapshot-installed", "log-discarded", "log-compacted", "partial-snapshot-discarded", "installsnapshot-second-chunk"}},
 	"C14": {ID: "C14", Profiles: []string{"crashsweep"}, Engine: "cluster", Accept: []string{"C14"}, Level: "exploration",
 		Rule: "one run = one seeded cluster simulation with snapshots on and crashes immediately before/after/inside the k-th storage operation of a node. Non-trivial: >= 1 crash at a storage operation followed by a restart. Distinct: distinct event-log hashes among those."},
 	"C15": {ID: "C15", Profiles: []string{"liveness", "core", "membership", "reads", "election", "crashsweep", "liveness", "election"}, Engine: "cluster", Accept: []string{"C15"}, Level: "exploration",
-		Rule: "one run = one seeded faulty cluster simulation followed by a fault-free phase of 60 election timeouts. Non-trivial: >= 1 fault fired before the heal phase. Distinct: distinct event-log hashes among those.",
+		Rule:   "one run = one seeded faulty cluster simulation followed by a fault-free phase of 60 election timeouts. Non-trivial: >= 1 fault fired before the heal phase. Distinct: distinct event-log hashes among those.",
 		Probes: []string{"heal-converged", "heal-restarted-bare-majority"}},
 }
 
@@ -135,29 +135,29 @@ type violation struct {
 func (v violation) class() string { return v.Property + "/" + v.Kind + "/" + v.Cause }
 
 type runResult struct {
-	Seed       uint64           `json:"seed"`
-	Profile    string           `json:"profile"`
-	Hash       string           `json:"hash"`
-	Violations []violation      `json:"violations"`
-	Infra      string           `json:"infra"`
-	Steps      uint64           `json:"steps"`
-	VirtualMs  int64            `json:"virtual_ms"`
-	Truncated  bool             `json:"truncated"`
-	Discarded  string           `json:"discarded"`
-	Committed  int              `json:"committed"`
-	OpsApplied int              `json:"ops_applied"`
-	Faults     int64            `json:"faults"`
-	NStates    int              `json:"n_states"`
-	StateList  []uint64         `json:"state_list"`
+	Seed       uint64                     `json:"seed"`
+	Profile    string                     `json:"profile"`
+	Hash       string                     `json:"hash"`
+	Violations []violation                `json:"violations"`
+	Infra      string                     `json:"infra"`
+	Steps      uint64                     `json:"steps"`
+	VirtualMs  int64                      `json:"virtual_ms"`
+	Truncated  bool                       `json:"truncated"`
+	Discarded  string                     `json:"discarded"`
+	Committed  int                        `json:"committed"`
+	OpsApplied int                        `json:"ops_applied"`
+	Faults     int64                      `json:"faults"`
+	NStates    int                        `json:"n_states"`
+	StateList  []uint64                   `json:"state_list"`
 	Stats      map[string]json.RawMessage `json:"stats"`
 	Net        map[string]json.RawMessage `json:"net"`
-	Probes     map[string]int64 `json:"probes"`
-	Disk       map[string]int64 `json:"disk"`
-	Trace      []string         `json:"trace"`
-	PlanLen    int              `json:"plan_len"`
-	Voters     int              `json:"voters"`
-	Nontrivial bool             `json:"nontrivial"`
-	Sample     json.RawMessage  `json:"sample"`
+	Probes     map[string]int64           `json:"probes"`
+	Disk       map[string]int64           `json:"disk"`
+	Trace      []string                   `json:"trace"`
+	PlanLen    int                        `json:"plan_len"`
+	Voters     int                        `json:"voters"`
+	Nontrivial bool                       `json:"nontrivial"`
+	Sample     json.RawMessage            `json:"sample"`
 }
 
 // ---------------------------------------------------------------- build
@@ -198,24 +198,24 @@ func (b *build) cleanup() {
 // ---------------------------------------------------------------- batch
 
 type aggregate struct {
-	mu          sync.Mutex
-	runs        int
-	nontrivial  map[string]struct{}
-	allHashes   map[string]struct{}
-	states      map[uint64]struct{}
-	steps       uint64
-	virtualMs   int64
-	opsApplied  int64
-	probes      map[string]int64
-	faults      map[string]int64
-	byProfile   map[string]int
-	byVoters    map[int]int
-	discarded   map[string]int
-	truncated   int
-	viol        map[string][]found // class -> occurrences
-	other       map[string]int     // violations of other properties (informational)
-	samples     []json.RawMessage
-	infra       string
+	mu         sync.Mutex
+	runs       int
+	nontrivial map[string]struct{}
+	allHashes  map[string]struct{}
+	states     map[uint64]struct{}
+	steps      uint64
+	virtualMs  int64
+	opsApplied int64
+	probes     map[string]int64
+	faults     map[string]int64
+	byProfile  map[string]int
+	byVoters   map[int]int
+	discarded  map[string]int
+	truncated  int
+	viol       map[string][]found // class -> occurrences
+	other      map[string]int     // violations of other properties (informational)
+	samples    []json.RawMessage
+	infra      string
 }
 
 type found struct {
@@ -716,32 +716,32 @@ func writeEvidence(sp *spec, tier string, seed uint64, agg *aggregate, wall floa
 		evaluations, distinct = int(agg.probes["crash-points"]), int(agg.probes["distinct-images"])
 	}
 	cov := map[string]interface{}{
-		"evaluations":         evaluations,
-		"distinct_nontrivial": distinct,
-		"rule":                sp.Rule,
-		"samples":             agg.samples,
-		"distinct_event_log_hashes": len(agg.allHashes),
-		"distinct_abstract_cluster_states": len(agg.states),
-		"state_measure":       "set of hashes of the per-node tuple (role, term, last log index, commit index, last applied, configuration index) over all nodes, sampled after every release of a node mutex, merged over all runs",
-		"scheduler_steps":     agg.steps,
-		"simulated_seconds":   float64(agg.virtualMs) / 1000,
-		"runs_per_hour":       int(float64(agg.runs) / wall * 3600),
-		"operations_applied":  agg.opsApplied,
-		"runs_by_profile":     agg.byProfile,
-		"runs_by_voter_count": agg.byVoters,
-		"faults_fired":        agg.faults,
-		"probes":              agg.probes,
-		"runs_truncated_by_step_budget": agg.truncated,
-		"runs_discarded":      agg.discarded,
+		"evaluations":                         evaluations,
+		"distinct_nontrivial":                 distinct,
+		"rule":                                sp.Rule,
+		"samples":                             agg.samples,
+		"distinct_event_log_hashes":           len(agg.allHashes),
+		"distinct_abstract_cluster_states":    len(agg.states),
+		"state_measure":                       "set of hashes of the per-node tuple (role, term, last log index, commit index, last applied, configuration index) over all nodes, sampled after every release of a node mutex, merged over all runs",
+		"scheduler_steps":                     agg.steps,
+		"simulated_seconds":                   float64(agg.virtualMs) / 1000,
+		"runs_per_hour":                       int(float64(agg.runs) / wall * 3600),
+		"operations_applied":                  agg.opsApplied,
+		"runs_by_profile":                     agg.byProfile,
+		"runs_by_voter_count":                 agg.byVoters,
+		"faults_fired":                        agg.faults,
+		"probes":                              agg.probes,
+		"runs_truncated_by_step_budget":       agg.truncated,
+		"runs_discarded":                      agg.discarded,
 		"violations_of_other_properties_seen": agg.other,
-		"known_findings_hit":  known,
+		"known_findings_hit":                  known,
 		"components": map[string]string{
 			"raft.go, operation.go, future.go, lease.go, configuration.go, options.go, logging": "real code (rewritten imports only)",
-			"log.go, state_storage.go, snapshot_storage.go, internal/fileutil":               "real code on the simulated disk (simos)",
-			"protobuf log/state/configuration codecs, JSON snapshot metadata":                 "real code",
-			"sync, time, goroutine scheduling, math/rand, os, path/filepath":                  "simulated (simrt, simtime, simrand, simos, simfp)",
-			"transport.go + grpc + requests.go converters":                                    "stub (simulated network); compiled, never executed",
-			"state machine":                                                                   "harness model state machine",
+			"log.go, state_storage.go, snapshot_storage.go, internal/fileutil":                  "real code on the simulated disk (simos)",
+			"protobuf log/state/configuration codecs, JSON snapshot metadata":                   "real code",
+			"sync, time, goroutine scheduling, math/rand, os, path/filepath":                    "simulated (simrt, simtime, simrand, simos, simfp)",
+			"transport.go + grpc + requests.go converters":                                      "stub (simulated network); compiled, never executed",
+			"state machine": "harness model state machine",
 		},
 	}
 	var notReached []string
